@@ -5,7 +5,7 @@ import json, os, shutil, subprocess, sys
 
 VERIF = os.path.dirname(os.path.dirname(os.path.abspath(__file__)))
 SRC = '/tmp/seedout'
-SOURCES = [('/tmp/seedout', ''), ('/tmp/seedout2', 'r2')]
+SOURCES = [('/tmp/seedout', ''), ('/tmp/seedout2', 'r2'), ('/tmp/seedout3', 'r3')]
 NEEDS = {
  'C01-m1': 'one-token sentence whose only/best route to a root category needs a unary rule',
  'C01-m2': 'lp rule made head-right: span with two derivations of one category and different heads (runs of punctuation)',
@@ -161,6 +161,92 @@ HISTORY = {
 }
 
 HISTORY.update(HISTORY2)
+NEEDS.update({
+ 'C01-r3m1': 'max_step equal to exactly the number of agenda pops the sentence needs (loop counts one step too few)',
+ 'C01-r3m2': 'all tags of a token inside the beam and the derivation needs that token\'s lowest-scoring tag',
+ 'C01-r3m3': 'Japanese SSEQ made head-left: >=3 tokens where SSEQ competes with another rule over one span',
+ 'C02-r3m1': 'nbest >= 2: token counter not reset between returned trees',
+ 'C02-r3m2': 'two parser runs in one process whose unary tables differ for the same category id (static memo)',
+ 'C02-r3m3': 'empty root set treated as no restriction',
+ 'C03-r3m1': 'modifier A/A with a concrete feature applied to an argument carrying [X] there (returns the binding instead of y)',
+ 'C03-r3m2': 'backward crossed composition over N/NP that carries a feature (guard tests the base only): result missing',
+ 'C03-r3m3': ', followed by a feature-less S\\NP (type change generalised)',
+ 'C04-r3m1': 'triple with a variable meets a triple that disagrees in a concrete slot',
+ 'C04-r3m2': 'unary input headed by NP (feature order case,mod,fin): label OTHER instead of ADV0',
+ 'C04-r3m3': '<B1 pattern b|c: forward functor Y/Z followed by X\\Y',
+ 'C05-r3m1': 'well-formed text parsed after a rejected text in the same process (shared scratch stack)',
+ 'C05-r3m2': 'a | slash inside a bracket pair is read as a backslash',
+ 'C05-r3m3': 'unary feature spelled like a punctuation category, e.g. NP[conj]',
+ 'C06-r3m1': 'second pattern passed as a Category object instead of text',
+ 'C06-r3m2': 'partly variable triple meets a triple differing in a concrete slot',
+ 'C06-r3m3': 'shared variable bound to a functor whose left part has a complex argument (leaf numbering)',
+ 'C07-r3m1': 'prolog with >=2 n-best trees for a sentence (running tree counter as id)',
+ 'C07-r3m2': 'language switched to ja after depccg.printer was imported (use_symbol bound at import)',
+ 'C07-r3m3': 'auto_extended with a leaf whose entity differs from its chunk',
+ 'C08-r3m1': 'one-word sentence whose derivation is a bare leaf line',
+ 'C08-r3m2': 'POS tag that is a bracket character or contains < or >',
+ 'C08-r3m3': 'token that starts and ends with - and contains < or >',
+ 'C09-r3m1': 'nbest > 1 and two returned trees with the same root category but different head tokens',
+ 'C09-r3m2': 'one-token sentence with a unary node and a non-zero penalty',
+ 'C09-r3m3': 'any sentence that gets the failure placeholder (score lowest float instead of -inf)',
+ 'C10-r3m1': 'k>=2 and a k-best derivation differing from a better one only below a unary node',
+ 'C10-r3m2': 'k>=2 and a unary node X->Y directly above a binary node whose left child has category Y',
+ 'C10-r3m3': 'k>=2, a constituent with two derivations of one category whose sibling is popped after both',
+ 'C11-r3m1': 'second parsing.run call with the same category list after a call that created a new category',
+ 'C11-r3m2': 'rule cache reaching 4,000,000 entries in the middle of a sentence',
+ 'C11-r3m3': 'tag and dependency matrices that agree with each other but belong to another token count',
+ 'C12-r3m1': 'children whose results differ only in features (, + S[ng]\\NP): guess matches feature-blind',
+ 'C12-r3m2': '1-best mode, pair with >=3 results two of which share a category, node built from a later one',
+ 'C12-r3m3': 'of_nltk_tree called after set_global_language_to(ja) (default argument bound at import)',
+ 'C13-r3m1': 'a hashed functor garbage collected and another allocated at the same address (hash memo by id)',
+ 'C13-r3m2': 'erased feature on the argument side of a functor whose result side has nothing to erase',
+ 'C13-r3m3': 'one functor with | where the other has / or \\ (^ treats | as wildcard: not transitive)',
+ 'C14-r3m1': 'atomic NP[nb] argument copied into the result (nb cleared only inside functors)',
+ 'C14-r3m2': 'Japanese grammar with an empty seen-rule set',
+ 'C14-r3m3': 'unary table listing a category among its own targets',
+ 'C15-r3m1': 'token containing a comma alongside other characters (1,000)',
+ 'C15-r3m2': 'sentence with two value-equal tokens (terminal offset looked up by value)',
+ 'C15-r3m3': 'token whose word is exactly -LRB- or -RRB- read by read_xml',
+ 'C16-r3m1': 'filter on, last word less confident than an earlier word (one threshold for all words)',
+ 'C16-r3m2': 'use_beta=False and a needed tag with ratio below 1e-5 inside the pruning_size best (filter silently stays on)',
+ 'C16-r3m3': 'filter on, sentence with no derivation inside the beta beam but one inside pruning_size (silent retry)',
+ 'C17-r3m1': 'the dictionary returned by read_params applied a second time (iterators exhausted)',
+ 'C17-r3m2': 'an empty dictionary (the shipped ja configuration)',
+ 'C17-r3m3': 'moderate large_negative_value or non-finite scores (mask added instead of assigned)',
+ 'C18-r3m1': 'token carrying a key named start/span/cat, xml rendered first',
+ 'C18-r3m2': 'ja format rendered in an English session (sets the global language)',
+ 'C18-r3m3': 'token lacking lemma/pos/entity/chunk rendered by auto_extended first (Token.__missing__ stores defaults)',
+ 'C19-r3m1': 'CLI format choice auto_flattened that to_string does not know',
+ 'C19-r3m2': 'ja batch containing a failed sentence rendered as prolog',
+ 'C19-r3m3': 'sentence longer than max_length (empty result list instead of the placeholder), html / jigg_xml',
+ 'C20-r3m1': 'token containing an unmatched ( in a tree that is not the last line of the file',
+ 'C20-r3m2': 'annotated bank line whose leaf suffix contains two or more underscores',
+ 'C20-r3m3': 'leaf token whose surf differs from its word',
+})
+HISTORY.update({
+ 'C01-r3m1': 'missed at first: cases with step budgets of the order of what a sentence needs added',
+ 'C01-r3m3': 'missed at first by C01 (caught by C04); now also caught by C01 real-grammar cases',
+ 'C02-r3m1': 'missed at first because run:raises was not owned by the search checks (ownership bug in vlib/search.py, fixed)',
+ 'C02-r3m3': 'missed at first: empty root sets added',
+ 'C05-r3m3': 'missed at first: feature values spelled like punctuation categories added',
+ 'C06-r3m1': 'missed at first: patterns are now also passed as Category objects',
+ 'C08-r3m2': 'missed at first: POS values with brackets / angle characters added',
+ 'C08-r3m3': 'missed at first: special tokens (->-, -<-, (), ...) added to the hostile token set',
+ 'C11-r3m1': 'missed at first: the caller\'s category/root lists are now handed over as they are and compared afterwards',
+ 'C11-r3m2': 'NOT caught: needs 4,000,000 rule-cache entries within one call - beyond every budget of this framework',
+ 'C11-r3m3': 'missed at first: shape mode "both matrices for another length" added',
+ 'C12-r3m2': 'first reported as inconclusive (smoke batch raised); the smoke batch no longer decides, run:raises is owned by every search check',
+ 'C12-r3m3': 'missed at first: modules imported before the language is chosen; nltk-style trees read under both languages',
+ 'C14-r3m2': 'missed at first: empty seen-rule sets added',
+ 'C14-r3m3': 'missed at first: unary tables listing a category among its own targets added',
+ 'C17-r3m1': 'missed at first: the check inspected (and thereby consumed) the dictionary itself; expectations now come from the shipped file, dictionary applied twice',
+ 'C18-r3m1': 'missed at first: tokens with extra keys added',
+ 'C18-r3m2': 'missed at first: ja format rendered in the English session, session language monitored',
+ 'C18-r3m3': 'missed at first: word-only tokens added',
+ 'C19-r3m3': 'missed at first by C19 (caught by C11): placeholder also obtained through the max_length path',
+ 'C20-r3m3': 'missed at first: Japanese tokens whose surf differs from word added',
+})
+EXTRA.update({'C01-r3m3': ['C04'], 'C19-r3m3': ['C11'], 'C20-r3m3': ['C07']})
 
 
 def main(only=None):
